@@ -297,7 +297,7 @@ PROPS["C14"] = {
     "assumptions": ["Server::time gets interval >= 1", "Server objects are used from the loop thread; only interrupt() is called from another thread"],
     "parts": [opf("loop", ["harness/c14_loop.cpp"], {"cases": 150000, "maxsize": 40}, {"cases": 1500000, "maxsize": 80, "workers": 16}, ldflags=SRV_WRAPS, deps=["harness/srv_common.hpp"]),
               rel(opf("loop", ["harness/c14_loop.cpp"], {"cases": 150000, "maxsize": 40}, {"cases": 1500000, "maxsize": 80, "workers": 16}, ldflags=SRV_WRAPS, deps=["harness/srv_common.hpp"], bin="C14_loop")),
-              opf("interrupt", ["harness/c14_interrupt.cpp"], {"cases": 1500, "maxsize": 4}, {"cases": 20000, "maxsize": 4, "workers": 16}, flavour="sched", wraps=["epoll_wait", "write"], plain_sources=["vsched/rt_io.cpp"], deps=["harness/vs_common.hpp"])],
+              opf("interrupt", ["harness/c14_interrupt.cpp"], {"cases": 1500, "maxsize": 4}, {"cases": 20000, "maxsize": 4, "workers": 16}, flavour="sched", wraps=["epoll_wait", "write", "eventfd_write", "send"], plain_sources=["vsched/rt_io.cpp"], deps=["harness/vs_common.hpp"])],
 }
 
 
